@@ -39,8 +39,17 @@ var colNameGen = rapid.OneOf(
 
 // drawBlock draws 1..maxCols columns sharing a row count.
 func drawBlock(rt *rapid.T, maxCols int) ([]colSpec, int) {
+	return drawBlockRows(rt, maxCols, gen.RowCount())
+}
+
+// drawBlockWide also produces row counts around powers of two (up to 1025).
+func drawBlockWide(rt *rapid.T, maxCols int) ([]colSpec, int) {
+	return drawBlockRows(rt, maxCols, gen.RowCountWide())
+}
+
+func drawBlockRows(rt *rapid.T, maxCols int, rowGen *rapid.Generator[int]) ([]colSpec, int) {
 	n := rapid.IntRange(1, maxCols).Draw(rt, "ncols")
-	rows := gen.RowCount().Draw(rt, "rows")
+	rows := rowGen.Draw(rt, "rows")
 	var cols []colSpec
 	used := map[string]bool{}
 	for i := 0; i < n; i++ {
